@@ -49,6 +49,7 @@ type Scheduler struct {
 	lock     sync.RWMutex              // 用于确保并发安全的锁
 	tick     time.Duration             // 时间周期
 	executor SchedulerExecutor         // 任务执行器
+	closed   bool                      // 是否已关闭
 }
 
 func (s *Scheduler) unlockUnregisterTask(name string) {
@@ -84,7 +85,13 @@ func (s *Scheduler) Close() {
 		task.close()
 		delete(s.tasks, name)
 	}
-	s.wheel.Stop()
+	if s.closed {
+		return
+	}
+	s.closed = true
+	// 时间轮的 Stop 会等待其内部协程退出，而当溢出轮中的定时器恰好在此刻被重新插入时，
+	// 内部协程可能永久阻塞在 delayqueue.Offer 上，导致 Close（以及 Actor 的终止）永久挂起，因此不在此等待
+	go s.wheel.Stop()
 }
 
 // UnregisterTask 取消特定任务的执行计划的注册
@@ -175,6 +182,11 @@ func (s *Scheduler) task(name string, after, interval time.Duration, expr *crone
 	// register task
 	s.lock.Lock()
 	defer s.lock.Unlock()
+
+	if s.closed {
+		// 已关闭的调度器不再可用
+		return
+	}
 
 	s.unlockUnregisterTask(name)
 
